@@ -9,9 +9,11 @@ import (
 	"os"
 	"os/exec"
 	"path/filepath"
+	"runtime"
 	"sort"
 	"strings"
 	"sync"
+	"syscall"
 	"time"
 
 	"github.com/elastic/go-seccomp-bpf/arch"
@@ -253,9 +255,83 @@ type c16Result struct {
 	Nil      bool             `json:"nil_error"`
 	Panic    string           `json:"panic,omitempty"`
 	Syscalls []disasm.Syscall `json:"syscalls"`
+	// DeliveryDiff: the same text handed over through a FIFO or a pipe (paths whose size is unknown in advance) gave
+	// another result than the regular file
+	DeliveryDiff string `json:"delivery_diff,omitempty"`
+}
+
+// deliver hands the text of the regular file to the extractor through a FIFO next to it or through a pipe
+// addressed as /proc/self/fd/N, written in uneven chunks.
+func deliver(how, archName, path string) c16Result {
+	text, err := os.ReadFile(path)
+	if err != nil {
+		return c16Result{Err: "harness: " + err.Error()}
+	}
+	feed := func(w *os.File) {
+		defer w.Close()
+		for off, k := 0, 0; off < len(text); k++ {
+			n := []int{1, 7, 100, 4095, 4096, 4097, 65536, 300000}[k%8]
+			if off+n > len(text) {
+				n = len(text) - off
+			}
+			if _, err := w.Write(text[off : off+n]); err != nil {
+				return
+			}
+			off += n
+			if k%3 == 0 {
+				runtime.Gosched()
+			}
+		}
+	}
+	switch how {
+	case "fifo":
+		fp := path + ".fifo"
+		os.Remove(fp)
+		if err := syscall.Mkfifo(fp, 0o644); err != nil {
+			return c16Result{Err: "harness: " + err.Error()}
+		}
+		defer os.Remove(fp)
+		go func() {
+			if w, err := os.OpenFile(fp, os.O_WRONLY, 0); err == nil {
+				feed(w)
+			}
+		}()
+		res := extractOne(archName, fp)
+		// release a writer that was never met by a reader
+		if r, err := os.OpenFile(fp, os.O_RDONLY|syscall.O_NONBLOCK, 0); err == nil {
+			r.Close()
+		}
+		return res
+	default: // pipe
+		r, w, err := os.Pipe()
+		if err != nil {
+			return c16Result{Err: "harness: " + err.Error()}
+		}
+		go feed(w)
+		res := extractOne(archName, fmt.Sprintf("/proc/self/fd/%d", r.Fd()))
+		r.Close()
+		return res
+	}
 }
 
 func extractOne(archName, path string) (res c16Result) {
+	if k := strings.Index(archName, "@"); k > 0 {
+		how := archName[k+1:]
+		res = extractOne(archName[:k], path)
+		res.Arch = archName
+		if res.Panic == "" {
+			alt := deliver(how, archName[:k], path)
+			switch {
+			case strings.HasPrefix(alt.Err, "harness: "):
+				res.DeliveryDiff = alt.Err
+			case alt.Panic != "":
+				res.DeliveryDiff = "through a " + how + ": panic: " + alt.Panic
+			case alt.Nil != res.Nil || fmt.Sprint(alt.Syscalls) != fmt.Sprint(res.Syscalls):
+				res.DeliveryDiff = fmt.Sprintf("through a %s: nil error=%v (%s), %d syscalls; from the regular file: nil error=%v (%s), %d syscalls", how, alt.Nil, alt.Err, len(alt.Syscalls), res.Nil, res.Err, len(res.Syscalls))
+			}
+		}
+		return res
+	}
 	res = c16Result{File: path, Arch: archName}
 	info := arch.X86_64
 	switch archName {
@@ -336,6 +412,8 @@ type c16Case struct {
 	// prefixOf: index of the case this one is a function-boundary prefix of
 	prefixOf int
 	path     string
+	// delivery: the worker also hands the same text over through a "fifo" or a "pipe" and compares
+	delivery string
 }
 
 func c16() {
@@ -471,6 +549,9 @@ func c16() {
 	lists := make([][]int, nWorkers)
 	for i, c := range cases {
 		c.path = filepath.Join(dir, fmt.Sprintf("in-%d.txt", i))
+		if !c.isDir && (c.arch == "x86_64" || c.arch == "i386") && i%5 == 2 {
+			c.delivery = []string{"fifo", "pipe"}[(i/5)%2]
+		}
 		if c.isDir {
 			os.MkdirAll(c.path, 0o755)
 		} else if err := os.WriteFile(c.path, c.text, 0o644); err != nil {
@@ -491,7 +572,11 @@ func c16() {
 				var lb bytes.Buffer
 				byPath := map[string]int{}
 				for _, i := range todo {
-					fmt.Fprintf(&lb, "%s\t%s\n", cases[i].arch, cases[i].path)
+					a := cases[i].arch
+					if cases[i].delivery != "" {
+						a += "@" + cases[i].delivery
+					}
+					fmt.Fprintf(&lb, "%s\t%s\n", a, cases[i].path)
 					byPath[cases[i].path] = i
 				}
 				os.WriteFile(listPath, lb.Bytes(), 0o644)
@@ -579,6 +664,15 @@ func c16() {
 			}
 			run.Violation(sig, fmt.Sprintf("%s input (%s, %d bytes): extraction does not return: %s", c.kind, c.arch, len(c.text), res.Panic), replay)
 			continue
+		}
+		if c.delivery != "" {
+			run.Count("texts_also_delivered_through_a_"+c.delivery, 1)
+			if strings.HasPrefix(res.DeliveryDiff, "harness: ") {
+				run.Count("delivery_not_possible", 1)
+			} else if res.DeliveryDiff != "" {
+				run.Violation("result-depends-on-delivery:"+c.delivery, fmt.Sprintf("%s input (%s, %d bytes): the same text %s", c.kind, c.arch, len(c.text), res.DeliveryDiff), replay)
+				continue
+			}
 		}
 		if c.mustError {
 			run.Count("unreadable_texts", 1)
